@@ -275,7 +275,8 @@ def check_links_write_once(ck: Checker, rid: str):
                     stores.append((n, t))
         if isinstance(n, ast.Call) and dotted(n.func) in ('setattr', 'delattr') and len(n.args) >= 2 and isinstance(n.args[1], ast.Constant) and n.args[1].value == 'next' and not is_name(n.args[0], 'self'):
             stores.append((n, n.args[0]))
-    fresh = {n.targets[0].id for n in walk_deep_func(f.node) if isinstance(n, ast.Assign) and len(n.targets) == 1 and isinstance(n.targets[0], ast.Name) and isinstance(n.value, ast.Call) and (dotted(n.value.func) or '').split('.')[-1] == 'TeeX'}
+    box_classes = set(f.module.classes)  # the element box is a class of this module, whatever it is called
+    fresh = {n.targets[0].id for n in walk_deep_func(f.node) if isinstance(n, ast.Assign) and len(n.targets) == 1 and isinstance(n.targets[0], ast.Name) and isinstance(n.value, ast.Call) and (dotted(n.value.func) or '').split('.')[-1] in box_classes}
     probs = []
     links = 0
     for n, t in stores:
